@@ -54,6 +54,17 @@ def mk(sysi, text, probes):
     return {"sys": sysi, "head": [str(sysi), sx(text), sx(probes)], "keys": keys, "text": text, "probes": probes}
 
 
+def project(line):
+    """C11 observes the printed set, whether it is accepted back, the second print and the
+    membership rows; not IsSimple or the internal form of the re-parsed set"""
+    if not line.startswith('("ok"'):
+        return line
+    r = parse_sx(line)
+    R = r[2]
+    rows = [row if row == [b"verr"] else row[:2] for row in r[3]]
+    return repr((r[1], R[0], R[1] if R[0] == b"ok" else None, rows))
+
+
 def gen_cases(ctx):
     rng = ctx.rng
     n = ctx.scale(10000, 500000)
@@ -128,11 +139,23 @@ def run(ctx):
     cases = gen_cases(ctx)
     impl_lines = ctx.impl("setrt", ctable.impl_args(cases))
     seed_keys(cases, impl_lines)
-    model_lines = ctable.run_model(ctx, tables, "setrt", cases)
+    # C11 is about the set of a parsed constraint: the model prints and re-parses the set Go
+    # produced (its dump), so that constraint parsing itself (C03) is not re-checked here
+    idx, mcases = [], []
+    for k, (c, line) in enumerate(zip(cases, impl_lines)):
+        if line.startswith('("ok"'):
+            r = parse_sx(line)
+            idx.append(k)
+            mcases.append({"sys": c["sys"], "head": [str(c["sys"]), sx(r[4]), sx(c["probes"])],
+                           "keys": set(c["keys"])})
+    outs = ctable.run_model(ctx, tables, "setrt_d", mcases)
+    model_lines = list(impl_lines)
+    for k, o in zip(idx, outs):
+        model_lines[k] = o
     ctx.count("corr:setrt", len(cases))
     nd = 0
     for c, i, m in zip(cases, impl_lines, model_lines):
-        if i != m:
+        if i != m and project(i) != project(m):
             if '"oom"' in m:
                 ctx.skipped_oom += 1
                 continue
@@ -141,7 +164,7 @@ def run(ctx):
                 ctx.divergence("setrt", {"system": NAMES[c["sys"]], "constraint": c["text"], "probes": c["probes"]}, i[:1500], m[:1500])
     open_ids = set(k["id"] for k in lib.load_known("C11") if k.get("status") == "open")
     for (idx, what, inp, obs, req) in oracle(ctx, cases, impl_lines):
-        cls = classify(cases[idx], impl_lines[idx]) if impl_lines[idx] == model_lines[idx] else None
+        cls = classify(cases[idx], impl_lines[idx]) if project(impl_lines[idx]) == project(model_lines[idx]) else None
         if cls is not None and cls in open_ids:
             ctx.known_hits[cls] = ctx.known_hits.get(cls, 0) + 1
         else:
